@@ -74,6 +74,34 @@ class GW(StoreW):
         cap = r.choice([None, None, 0, 1, 15, 16, 17, 32, 64, 127, 128, 129, 256, 512, 6000])
         fam = r.choice(["enc", "dec", "sign", "verify", "digest", "signrec", "wrap", "unwrap", "derive", "gen", "genpair", "attr", "obj", "find", "misc", "token", "legacy"])
         E = lambda op: self.emit(op, tid, ok=False)
+        if fam in ("enc", "dec", "sign", "verify", "signrec") and r.random() < 0.5:
+            # matched stratum: a mechanism that FITS a live key, so that *Init succeeds and the hostile part (data and buffer lengths) reaches the code behind it
+            MATCH = {"aes": {"enc": [K.CKM_AES_ECB, K.CKM_AES_CBC, K.CKM_AES_CBC_PAD, K.CKM_AES_CTR, K.CKM_AES_GCM], "sign": [K.CKM_AES_CMAC]},
+                     "des3": {"enc": [K.CKM_DES3_ECB, K.CKM_DES3_CBC, K.CKM_DES3_CBC_PAD], "sign": [K.CKM_DES3_CMAC]},
+                     "generic": {"sign": [K.CKM_SHA256_HMAC, K.CKM_SHA_1_HMAC, K.CKM_SHA512_HMAC, K.CKM_MD5_HMAC]},
+                     "rsa_pub": {"enc": [K.CKM_RSA_PKCS, K.CKM_RSA_X_509, K.CKM_RSA_PKCS_OAEP], "verify": [K.CKM_RSA_PKCS, K.CKM_RSA_X_509, K.CKM_RSA_PKCS_PSS, K.CKM_SHA1_RSA_PKCS, K.CKM_SHA256_RSA_PKCS, K.CKM_SHA256_RSA_PKCS_PSS]},
+                     "rsa_priv": {"dec": [K.CKM_RSA_PKCS, K.CKM_RSA_X_509, K.CKM_RSA_PKCS_OAEP], "sign": [K.CKM_RSA_PKCS, K.CKM_RSA_X_509, K.CKM_RSA_PKCS_PSS, K.CKM_SHA1_RSA_PKCS, K.CKM_SHA256_RSA_PKCS, K.CKM_SHA256_RSA_PKCS_PSS], "signrec": [K.CKM_RSA_PKCS, K.CKM_RSA_X_509]},
+                     "ec_priv": {"sign": [K.CKM_ECDSA]}, "ec_pub": {"verify": [K.CKM_ECDSA]}}
+            f2 = {"dec": "enc", "verify": "sign"}
+            cands = []
+            for ob in self.live_objs(pid):
+                kd = self.info.get(ob.ref, {}).get("kind")
+                ms = MATCH.get(kd, {})
+                lst = ms.get(fam) or (ms.get(f2.get(fam)) if kd in ("aes", "des3", "generic") else None)
+                if lst: cands.append((ob, lst))
+            live = [x for x in self.live_sessions(pid)]
+            if cands and live:
+                ob, lst = r.choice(cands); mm = r.choice(lst)
+                ss = [x for x in live if x.tok == ob.tok] or live
+                s = r.choice(ss).ref; o = ob.ref
+                if mm in (K.CKM_AES_CBC, K.CKM_AES_CBC_PAD): m = mechs.simple(mm, objs.rnd(r, 16))
+                elif mm in (K.CKM_DES3_CBC, K.CKM_DES3_CBC_PAD): m = mechs.simple(mm, objs.rnd(r, 8))
+                elif mm == K.CKM_AES_CTR: m = mechs.ctr(r.choice([1, 32, 128]), objs.rnd(r, 16))
+                elif mm == K.CKM_AES_GCM: m = mechs.gcm(objs.rnd(r, r.choice([1, 12, 16])), objs.rnd(r, r.choice([0, 5])), r.choice([0, 32, 96, 128]))
+                elif mm == K.CKM_RSA_PKCS_OAEP: m = mechs.oaep(K.CKM_SHA_1, K.CKG_MGF1_SHA1)
+                elif mm in (K.CKM_RSA_PKCS_PSS, K.CKM_SHA256_RSA_PKCS_PSS): m = mechs.pss(mm, r.choice([K.CKM_SHA_1, K.CKM_SHA256]), r.choice([K.CKG_MGF1_SHA1, K.CKG_MGF1_SHA256]), r.choice([0, 20, 32, 94, 95, 1000]))
+                else: m = mechs.simple(mm)
+                cap = r.choice([None, 0, 1, 127, 128, 129, 256, 512, 6000, 6000])
         if fam in ("enc", "dec", "sign", "signrec"):
             base = {"enc": "C_Encrypt", "dec": "C_Decrypt", "sign": "C_Sign", "signrec": "C_SignRecover"}[fam]
             E({"f": base + "Init", "s": s, "mech": m, "key": o})
@@ -216,7 +244,20 @@ class GW(StoreW):
         elif x < 0.74: how = {"k": "append", "hex": objs.rnd(r, r.choice([1, 7, 8, 16, 100])).hex()}
         elif x < 0.8: how = {"k": "replace", "hex": r.choice([b"", objs.rnd(r, 8), objs.rnd(r, 100), bytes(64), b"\xff" * 64]).hex()}
         elif x < 0.86 and toks: how = {"k": "swap", "with": "@obj:" + r.choice(toks).ref} if not path.startswith("@tok") or r.random() < 0.5 else {"k": "swap", "with": "@tok:" + r.choice(self.toks())}
-        elif x < 0.92: how = {"k": "delete"}
+        elif x < 0.9: how = {"k": "delete"}
+        elif x < 0.97 and not path.startswith(("@lock", "@toklock")):
+            # the stored KIND of one attribute no longer fits its TYPE (file still well-formed)
+            kind = r.choice([1, 2, 3, 3, 4, 5])
+            u64 = lambda v: int(v).to_bytes(8, "big")
+            if kind == 1: enc = bytes([r.choice([0, 1, 255])])
+            elif kind == 2: enc = u64(r.choice(big))
+            elif kind == 3: b = objs.rnd(r, r.choice([0, 1, 3, 7, 8, 9, 16, 33, 300])); enc = u64(len(b)) + b
+            elif kind == 5: n = r.choice([0, 1, 3, 40]); enc = u64(n) + b"".join(u64(r.choice([K.CKM_AES_CBC, K.CKM_RSA_PKCS, 0x999, i])) for i in range(n))
+            else:
+                inner = b"".join(u64(t_) + u64(1) + b"\x01" for t_ in r.sample([K.CKA_EXTRACTABLE, K.CKA_SENSITIVE, K.CKA_TOKEN, K.CKA_LABEL], r.randint(0, 3)))
+                if r.random() < 0.4: inner += u64(K.CKA_LABEL) + u64(3) + u64(5) + b"hello"
+                enc = u64(len(inner)) + inner
+            how = {"k": "retype", "index": r.randrange(64), "kind": kind, "enc": enc.hex()}
         else:
             path = "/sim/tokens/%s/%s" % ("@", "x"); how = None
         if how is None:
@@ -228,6 +269,22 @@ class GW(StoreW):
             self.emit({"act": "corrupt", "path": path, "how": how}, tid)
         # make the library look at it
         y = r.random()
+        victim = self.w.objs.get(path.split(":", 1)[1]) if path.startswith(("@obj:", "@lock:")) else None
+        if victim is not None and r.random() < 0.6:
+            # use the very object whose file was just damaged / removed, through the handle the application already holds
+            ss = [x for x in self.live_sessions(pid) if x.tok == victim.tok]
+            if ss:
+                s = r.choice(ss)
+                if r.random() < 0.3: self.emit({"act": "find", "s": s.ref, "tmpl": [], "batches": []}, tid)
+                for _ in range(r.randint(1, 3)):
+                    z = r.random()
+                    if z < 0.4: self.emit({"act": "readattrs", "s": s.ref, "o": victim.ref, "types": self.readtypes}, tid)
+                    elif z < 0.6: self.s_setattr(tid, pid, obj=victim)
+                    elif z < 0.7: self.emit({"f": "C_GetObjectSize", "s": s.ref, "o": victim.ref}, tid, ok=False)
+                    elif z < 0.85:
+                        new = self.new_obj()
+                        self.emit({"f": "C_CopyObject", "s": s.ref, "o": victim.ref, "tmpl": [A_bytes(K.CKA_LABEL, objs.label(new))], "out": new}, tid, ok=False); self.info[new] = self.info.get(victim.ref, {"kind": "data", "secret": {}})
+                    else: self.emit({"f": "C_EncryptInit", "s": s.ref, "mech": mechs.simple(K.CKM_AES_ECB), "key": victim.ref}, tid, ok=False)
         if y < 0.5:
             self.emit({"act": "restart"}, tid); self.relogin_all(tid)
         else:
